@@ -544,6 +544,10 @@ func (fr *Frame) mergeStates(preds []*ssa.BasicBlock, to *ssa.BasicBlock) *State
 			fc.parents = map[string][]string{}
 		}
 		fc.parents[c] = append(fc.parents[c], terms...)
+		if fc.mergeConst == nil {
+			fc.mergeConst = map[string]bool{}
+		}
+		fc.mergeConst[c] = true
 		out.vars[k] = c
 		merged = append(merged, c)
 	}
